@@ -49,7 +49,7 @@ def desc_rust(d):
 
 def run(ctx, log):
     # the same small programs at every size around the widths the implementation encodes things in (closed-form results)
-    progcheck.run_scale(ctx, log, ['constants'])
+    progcheck.run_scale(ctx, log, ['constants', 'alias'])
     rng = ctx.rng
     cases = []   # (rust line, builder(obs) -> coq term or None, python-side oracle(obs) -> error or None, label)
     ints = int_lattice() + [rand_int(rng) for _ in range(300 if ctx.quick else 20000)]
@@ -83,6 +83,9 @@ def run(ctx, log):
     sample += [("f", (0, 0)), ("f", (1, 0)), ("f", (0, 1)), ("f", (3, 2)), ("f", (2 ** 32 - 1, 65535)), ("f", (1, 65535))]
     sample += [("F", b) for b in ["0000000000000000", "8000000000000000", "7ff8000000000000", "3ff0000000000000", "bff0000000000000", "7ff0000000000000", "0000000000000001"]]
     sample += [("S", s) for s in ["", "a", "b", "ab", "hé", "he", "1", "ja"]]
+    for b0 in ["3ff0000000000000", "3fd3333333333333", "4330000000000000", "3fb999999999999a", "7fefffffffffffff", "0000000000000001"]:
+        for k in (1, 2):
+            sample.append(("F", "%016x" % (int(b0, 16) + k)))          # neighbours: 1 and 2 units in the last place apart
     extra = 20 if ctx.quick else 160
     for _ in range(extra):
         c = rng.random()
@@ -197,6 +200,9 @@ def run(ctx, log):
     texts = ["".join(p) for n in (1, 2) for p in itertools.product(alpha, repeat=n)] + ["".join(rng.choice(alpha) for _ in range(rng.randint(3, 9))) for _ in range(60 if ctx.quick else 2000)]
     for t in texts:
         edits.append(("stel s = %s; stel t = [s]; [s, lengte(s), t[0] == s, s != t[0]]" % nlast.quote(t), "OK #0=A[#1=S%s,i%d,b1,b0]" % (nlast.cps(t), len(t))))
+    for t in texts:
+        if len(t) >= 2:
+            edits.append(("stel s = %s; [s[-1], s[-%d], s[0], s[%d]]" % (nlast.quote(t), len(t), len(t) - 1), "OK #0=A[#1=S%s,#2=S%s,#3=S%s,#4=S%s]" % (nlast.cps(t[-1]), nlast.cps(t[0]), nlast.cps(t[0]), nlast.cps(t[-1]))))
     for b in list(FLOAT_SPECIALS) + [rand_float_bits(rng) for _ in range(40 if ctx.quick else 1500)]:
         x = struct.unpack(">d", bytes.fromhex(b))[0]
         r = repr(x)
